@@ -2,6 +2,6 @@ SPECIFICATION Spec
 CONSTANTS
   MaxSteps = 2
   DocDepth = 2
-  StepSet = {"a", "b", "`a`", "$", "$$", "$v", "*", "**", "(a.b)", "[a]", "{k:a}", "$string(a)"}
+  StepSet = {"a", "b", "`a`", "$", "$$", "$v", "*", "**", "(a.b)", "[a]", "{k:a}", "$string(a)", "(a.b[])", "(a[])"}
 INVARIANTS Emit PathResultIsJson EmptyIsNoValue
 CHECK_DEADLOCK FALSE
